@@ -2852,6 +2852,7 @@ func (p *Parser) coprocClause(s *Stmt) {
 		if call, ok := cc.Stmt.Cmd.(*CallExpr); ok {
 			// name was in fact the start of a call
 			call.Args = append([]*Word{cc.Name}, call.Args...)
+			cc.Stmt.Position = cc.Name.Pos()
 			cc.Name = nil
 		}
 	}
